@@ -1,4 +1,4 @@
-import FxVerif.Proofs.C04Ext
+import FxVerif.Proofs.C04Acct
 import FxVerif.Gen.C04
 /-!
 # C04 — bridge solvency: holdings + in-flight = initial + deposits − executed withdrawals; operations move only what
@@ -219,6 +219,48 @@ theorem convert_moves_exactly (k : Kind) (g u r n : Nat) (L L' : Ledger) (g' u' 
         (if g = g' ∧ r = u' then (n : Int) else 0) - (if g = g' ∧ u = u' then (n : Int) else 0) := by
       cases k <;> simp only [convertERC20] <;> acct_done
     rw [hd, holdings]; omega
+
+/-- **operations move only what they say** (per operation, not only per flow): for every configuration, state and
+operation of the 18 kinds, if the operation succeeds then the holdings of EVERY user in EVERY token group (base coin,
+bridge denominations and ERC-20 together) change by exactly `stated` — the sender of a transfer pays amount + fee, a
+cancel or a refund gives back exactly what the stored record holds, a fee increase costs the added fee, a conversion
+moves the amount from sender to receiver, an inbound bridge call that fails nets to zero for everybody, building /
+executing / timing out a batch moves nothing — and by 0 for every other user and group.  (A failing operation changes
+nothing: `failed_op_is_noop`.) -/
+theorem op_moves_only_what_it_says (cfg : Cfg) (s s' : State) (op : Op) (g u : Nat) (h : step cfg s op = .ok s') :
+    holdings s'.L g (U u) = holdings s.L g (U u) + stated s op u g :=
+  step_holdings cfg s s' op g u h
+
+/-- … along whole histories: a user's holdings are the initial holdings plus the stated amounts of the operations that
+succeeded -/
+theorem holdings_are_sum_of_stated (cfg : Cfg) (ops : List Op) (s : State) (g u : Nat) :
+    holdings (runOps cfg s ops).L g (U u) = holdings s.L g (U u) +
+      (ops.foldl (fun (acc : State × Int) op =>
+        (stepT cfg acc.1 op, acc.2 + (match step cfg acc.1 op with | .ok _ => stated acc.1 op u g | .error _ => 0)))
+        (s, 0)).2 := by
+  suffices H : ∀ (ops : List Op) (s : State) (z : Int),
+      holdings (runOps cfg s ops).L g (U u) + z = holdings s.L g (U u) +
+        (ops.foldl (fun (acc : State × Int) op =>
+          (stepT cfg acc.1 op, acc.2 + (match step cfg acc.1 op with | .ok _ => stated acc.1 op u g | .error _ => 0)))
+          (s, z)).2 by
+    have := H ops s 0; omega
+  intro ops
+  induction ops with
+  | nil => intro s z; simp [runOps]
+  | cons op ops ih =>
+    intro s z
+    simp only [runOps, List.foldl_cons] at ih ⊢
+    cases hs : step cfg s op with
+    | error e =>
+      have : stepT cfg s op = s := by simp [stepT, hs]
+      rw [this]; simpa using ih s z
+    | ok s1 =>
+      have h1 : stepT cfg s op = s1 := by simp [stepT, hs]
+      rw [h1]
+      dsimp only
+      have := ih s1 (z + stated s op u g)
+      have h2 := op_moves_only_what_it_says cfg s s1 op g u hs
+      omega
 
 /-! ### witnesses (each replayed on the real app by the scripted prefix of the harness) -/
 
